@@ -157,6 +157,13 @@ func Profile(name string) Knobs {
 		k.ActionsChoices = []string{allActions, allActions, "allocate, reclaim, preempt", "allocate, consolidation, reclaim"}
 		k.KindWeights = map[string]int{"cpu": 1, "whole": 7, "fraction": 3, "gpumem": 1}
 		k.PNotReady, k.PUnschedulable = 0, 0
+	case "accounting": // C13 / C14: many simulated steps, shared GPUs, solver actions
+		k.Fill, k.PTerminating, k.PBinding = 0.75, 0.2, 0.1
+		k.PGang, k.PElastic, k.PSubGroups = 0.45, 0.4, 0.25
+		k.KindWeights = map[string]int{"cpu": 2, "besteffort": 1, "whole": 5, "fraction": 5, "gpumem": 3, "multifrac": 2, "mig": 1, "ext": 1}
+		k.ActionsChoices = []string{allActions}
+		k.PFaults = 0.2
+		k.PTopology = 0.1
 	case "mixed":
 	}
 	return k
